@@ -13,7 +13,9 @@ ASSUMPTIONS = [
     "exchanged no node computes a difference against any other and all reads are identical (C05_NothingLeft, C01_Converges); every diff the real "
     "keyspace actors answered is validated against DiffSpec by Trace_KeyspaceActor.tla",
     "at scale: single real poller rounds for 1 .. 55 557 documents (with tombstones, the receiver holding older versions of some); the expectation is the "
-    "statement's - after the exchange the receiver holds what the sender holds - compared on the two storages",
+    "statement's - after the exchange the receiver holds what the sender holds - compared on the two storages; six more exchanges (1, 2, 7 documents) have one fault "
+    "in them - the receiver's storage refuses the first repair write, or the sender's storage refuses the read behind the first fetch: such an exchange must not count as "
+    "done, four more rounds of the same poller (same keyspace tracker) have to repair",
 ]
 
 
@@ -27,13 +29,13 @@ def large_exchanges(ctx):
     sizes = "1,2,3,999,1000,1001,4999,55556,55557" if ctx.tier == "quick" else "1,2,3,9,10,11,999,1000,1001,4999,9999,10000,10001,49999,50000,50001,55555,55556,55557,111112"
     vlib.run_harness(ctx, [binary, "large-exchange", "--out", out, "--sizes", sizes], timeout=3000)
     rep = vlib.load_json(out)
-    if rep["evaluations"] == 0 or rep["entries"] < 50000:
-        raise vlib.ToolError("vacuous large-exchange run")
+    if rep["evaluations"] == 0 or rep["entries"] < 50000 or rep.get("faults_run_into", 0) < rep.get("faulty_exchanges", 1):
+        raise vlib.ToolError("vacuous large-exchange run: %s" % {k: rep.get(k) for k in ("evaluations", "entries", "faulty_exchanges", "faults_run_into")})
     ctx.log("large exchanges: %d exchanges of up to 55 557 documents through the real poller: %d leave the two nodes apart" % (
         rep["evaluations"], rep["violation_count"]))
     for v in rep["violations"][:3]:
         ctx.violations.append(dict(engine="h-ec large-exchange", **v))
-    return {"exchanges": rep["evaluations"], "entries": rep["entries"], "sizes": rep["sizes"], "exchanges_that_leave_a_difference": rep["violation_count"]}
+    return {"exchanges_with_one_fault": rep.get("faulty_exchanges"), "exchanges": rep["evaluations"], "entries": rep["entries"], "sizes": rep["sizes"], "exchanges_that_leave_a_difference": rep["violation_count"]}
 
 
 def run(ctx):
